@@ -287,6 +287,25 @@ func c10Fixed() []string {
 		l = append(l, "print 0 and ("+operand+")\nprint 1 or ("+operand+")\n")
 	}
 	l = append(l, "def b { f = 0 and (1"+strings.Repeat("+1", 40000)+") }\n")
+	// 'and' followed by 'or' with a right operand sized around the jump limit
+	for d := 65524; d <= 65538; d++ {
+		bytesWanted := d
+		neg := ""
+		if bytesWanted%2 == 0 {
+			neg = "-"
+			bytesWanted--
+		}
+		operand := neg + "1" + strings.Repeat("+1", (bytesWanted+1)/2-1)
+		l = append(l, "var a = 0\nprint a and "+operand+" or 7\nvar b = 1\nprint b and "+operand+" or 7\n")
+	}
+	// constant indices across the 2-byte / 3-byte varint border (2287 / 2288)
+	{
+		var b strings.Builder
+		for k := 0; k < 2600; k++ {
+			fmt.Fprintf(&b, "print %d.5 and \"s%d\"\n", k, k)
+		}
+		l = append(l, b.String())
+	}
 	// nested chains
 	l = append(l, "var a = 1 var b = 0\nprint a and b and a or b or a and (b or a) and not (a and b)\nprint (a = b) or (b = a) and a\ndef x { f = a and (g = b) or (h = a and not b) }\n")
 	return l
